@@ -149,6 +149,8 @@ func gridCases() []Case {
 			add("except", rv.Expr{Op: "except", Args: []rv.Expr{L(T(li(xs...)...))}, Subs: []rv.Sub{{Keys: []rv.Expr{I(int64(m))}, Val: rv.EOp("ModulePlusSymbol", rv.EVar(0), one)}}})
 		}
 	}
+	add("tostring", rv.EOp("ModuleToString", L(T(S(li(1, 2)...)))))
+	add("tostring", rv.EOp("ModuleToString", L(rv.LFn(li(1, 0), []rv.Lit{S(li(2, 1)...), T()}))))
 	add("union", rv.EOp("ModulePrefixUnionSymbol", L(S())))
 	add("union", rv.EOp("ModulePrefixUnionSymbol", L(S(S()))))
 	add("union", rv.EOp("ModulePrefixUnionSymbol", L(S(S(), S(S())))))
@@ -180,6 +182,15 @@ func gridCases() []Case {
 		add("seqfn", rv.EOp("ModuleBackslashSymbol", L(S(p[0])), L(S(p[1]))))
 		add("seqfn", rv.EOp("ModuleSubsetOrEqualSymbol", L(S(p[0])), L(S(p[1]))))
 	}
+	t1, f1 := T(li(1)...), rv.LFn(li(1), li(1))
+	add("seqfn", rv.EOp("ModuleDoubleAtSignSymbol", L(rv.LFn([]rv.Lit{t1}, li(1))), L(rv.LFn([]rv.Lit{f1}, li(2)))))
+	add("seqfn", rv.EOp("ModuleDomainSymbol", L(rv.LFn([]rv.Lit{t1, f1}, li(1, 1)))))
+	add("seqfn", rv.EOp("ModulePrefixSubsetSymbol", L(S(t1, f1))))
+	add("seqfn", rv.Expr{Op: "select", Args: []rv.Expr{L(S(t1, f1))}, Idx: 1})
+	add("seqfn", rv.Expr{Op: "except", Args: []rv.Expr{L(rv.LFn([]rv.Lit{f1}, li(1)))}, Subs: []rv.Sub{{Keys: []rv.Expr{L(t1)}, Val: one}}})
+	add("seqfn", rv.Expr{Op: "except", Args: []rv.Expr{L(rv.LFn([]rv.Lit{t1}, li(1)))}, Subs: []rv.Sub{{Keys: []rv.Expr{L(f1)}, Val: one}}})
+	add("seqfn", rv.Expr{Op: "mkset", Args: []rv.Expr{L(t1), L(f1)}})
+	add("seqfn", rv.EOp("ModuleCardinality", rv.Expr{Op: "mkset", Args: []rv.Expr{L(t1), L(f1)}}))
 	add("seqfn", rv.EOp("ModuleLen", L(f1a)))
 	add("seqfn", rv.EOp("ModuleHead", L(f12)))
 	add("seqfn", rv.EOp("ModuleTail", L(f12)))
